@@ -220,6 +220,9 @@ def yaxis_from_shape(
 
     if ndim != 3:
         raise ValueError("Can only work with 2-d or 3-d data")
+    if gbox is not None and (gbox.shape == shape[:2]) != (gbox.shape == shape[1:]):
+        # the geobox tells band-last from band-first, also for images 3 or 4 pixels wide
+        return ("YXS", 0) if gbox.shape == shape[:2] else ("SYX", 1)
     if shape[-1] in (3, 4):  # YXS in RGB(A)
         return "YXS", 0
 
